@@ -1,7 +1,12 @@
 import Dasp.Driver.Loop
+import Dasp.Driver.Slice
 open Dasp.Driver
 
--- stub: replaced when property C10 is wired in
 def main : IO Unit := runDriver fun
+  | "view" :: rest => viewLine rest
+  | "fview" :: rest => fviewLine rest
+  | "box" :: rest => boxLine rest
+  | "fbox" :: rest => fboxLine rest
+  | "ops" :: rest => opsLine rest
   | [] => ""
   | _ => "bad-op"
